@@ -3,6 +3,8 @@
 package cl
 
 import (
+	"strings"
+
 	"github.com/ohler55/slip"
 )
 
@@ -42,5 +44,5 @@ func (f *MakeSymbol) Call(s *slip.Scope, args slip.List, depth int) slip.Object 
 	if !ok {
 		slip.TypePanic(s, depth, "name", args[0], "string")
 	}
-	return slip.Symbol(str)
+	return slip.Symbol(strings.ToLower(string(str)))
 }
